@@ -423,6 +423,17 @@ class TxSendWait:
                      self.ecn_alpha, self.cwnd,
                      self.tok_rate*1e6)
 
+    def _fail_cur_item(self, err: Exception) -> None:
+        ''' Give up on the current item and keep the queue moving. '''
+        LOGGER.error('CCA failed item %s: %s', self.cur_item.item.transfer_id, err)
+        self.agent.send_bundle_finished(
+            str(self.cur_item.item.transfer_id),
+            self.cur_item.item.total_length,
+            'failure'
+        )
+        self.cur_item = None
+        self.cur_dgram = None
+
     def _update_send(self, diff_ns: int) -> bool:
         ''' Send datagrams when tokens available.
         :param diff_ns: The time difference since last update.
@@ -471,6 +482,9 @@ class TxSendWait:
 
                     self.cur_item = None
                     continue
+                except Exception as err:
+                    self._fail_cur_item(err)
+                    continue
 
             # accounting in millibytes
             need = 1000 * len(self.cur_dgram)
@@ -479,7 +493,11 @@ class TxSendWait:
                 return True
 
             # let the sender do any buffering
-            self.cur_item.sender(self.cur_dgram)
+            try:
+                self.cur_item.sender(self.cur_dgram)
+            except Exception as err:
+                self._fail_cur_item(err)
+                continue
             self.tok_avail -= need
 
             self.cur_dgram = None
